@@ -369,6 +369,30 @@ func harnessAPI(e *Exec, g *G, fn *ssa.Function, args []Value) (Value, bool) {
 		return Tuple{Ptr(c), Ptr(sv)}, true
 	case "ctxTimeoutCount":
 		return tt.BV(64, uint64(len(e.ctxTimeouts))), true
+	case "timerCount":
+		return tt.BV(64, uint64(len(e.timerDurs))), true
+	case "timerNs":
+		// duration handed to the i-th time.After call of this execution
+		i, ok := args[0].(*Term).ConstU()
+		if !ok || int(i) >= len(e.timerDurs) {
+			return tt.BV(64, ^uint64(0)), true
+		}
+		return e.timerDurs[i], true
+	case "ctxTimeoutNs":
+		// duration handed to the innermost context.WithTimeout this context descends from (-1: none)
+		if ifc, ok := args[0].(Iface); ok {
+			for c, _ := ifc.V.(*GoObj); c != nil; {
+				if d, ok := c.Attrs["timeout"].(*Term); ok {
+					return d, true
+				}
+				pi, ok := c.Attrs["parent"].(Iface)
+				if !ok {
+					break
+				}
+				c, _ = pi.V.(*GoObj)
+			}
+		}
+		return tt.BV(64, ^uint64(0)), true
 	case "strLen":
 		return tt.I2BV(64, tt.StrLen(args[0].(*Term))), true
 	case "envLogCount":
@@ -975,13 +999,35 @@ func init() {
 			return f(args, e.tt), true
 		})
 	}
-	concreteStr("strings.Split", func(args []Value, tt *Terms) Value {
-		parts := strings.Split(args[0].(*Term).S, args[1].(*Term).S)
-		r := make(Slice, len(parts))
-		for i, p := range parts {
-			r[i] = tt.Str(p)
+	reg("strings.Split", func(e *Exec, g *G, fn *ssa.Function, args []Value) (Value, bool) {
+		tt := e.tt
+		s, sep := args[0].(*Term), args[1].(*Term)
+		if s.IsConst() && sep.IsConst() {
+			parts := strings.Split(s.S, sep.S)
+			r := make(Slice, len(parts))
+			for i, p := range parts {
+				r[i] = tt.Str(p)
+			}
+			return r, true
 		}
-		return r
+		if !sep.IsConst() || sep.S == "" {
+			e.unsupported("strings.Split with a symbolic or empty separator")
+		}
+		// symbolic string, constant separator: fork on the number of separators, at most 4 (stated bound)
+		var parts []*Term
+		rest := s
+		for k := 0; k < 4; k++ {
+			if !e.branch(tt.Contains(rest, sep)) {
+				parts = append(parts, rest)
+				return e.mkStrSlice(parts), true
+			}
+			idx := tt.IndexOf(rest, sep, tt.Int(0))
+			parts = append(parts, tt.SubStr(rest, tt.Int(0), idx))
+			off := tt.IAdd(idx, tt.Int(int64(len(sep.S))))
+			rest = tt.SubStr(rest, off, tt.ISub(tt.StrLen(rest), off))
+		}
+		e.fail(OutBound, "strings.Split: more than 4 separators in a symbolic string")
+		return nil, true
 	})
 	concreteStr("strings.ToLower", func(args []Value, tt *Terms) Value { return tt.Str(strings.ToLower(args[0].(*Term).S)) })
 	concreteStr("strings.ToUpper", func(args []Value, tt *Terms) Value { return tt.Str(strings.ToUpper(args[0].(*Term).S)) })
